@@ -125,6 +125,31 @@ func (p *Prog) assignedKeys(n ast.Node) map[string]bool {
 					out[k] = true // address taken: anything may happen
 				}
 			}
+		case *ast.CallExpr:
+			// a method with a pointer receiver, or a pointer argument, may modify what it points to
+			if sel, ok := x.Fun.(*ast.SelectorExpr); ok {
+				if s := p.Info.Selections[sel]; s != nil {
+					if f, ok := s.Obj().(*types.Func); ok {
+						if sig, ok := f.Type().(*types.Signature); ok && sig.Recv() != nil {
+							if _, isPtr := sig.Recv().Type().(*types.Pointer); isPtr {
+								if k := p.exprKey(sel.X); k != "" {
+									out[k] = true
+								}
+							}
+						}
+					}
+				}
+			}
+			for _, a := range x.Args {
+				if t := p.typeOf(a); t != nil {
+					if _, isPtr := t.Underlying().(*types.Pointer); isPtr {
+						if k := p.exprKey(a); k != "" {
+							// every field path below the pointer is killed, the pointer variable itself is not
+							out[k+".\x00any"] = true
+						}
+					}
+				}
+			}
 		}
 		return true
 	})
@@ -136,6 +161,13 @@ func killed(assigned map[string]bool, k string) bool {
 		return true
 	}
 	for a := range assigned {
+		if strings.HasSuffix(a, ".\x00any") {
+			// every field below the pointer
+			if strings.HasPrefix(k, strings.TrimSuffix(a, "\x00any")) {
+				return true
+			}
+			continue
+		}
 		if strings.HasPrefix(k, a+".") || strings.HasPrefix(k, a+"[") {
 			return true
 		}
@@ -241,6 +273,22 @@ func (p *Prog) evalI(e ast.Expr, env ienv) ival {
 		return tr
 	case *ast.BinaryExpr:
 		l, r := p.evalI(x.X, env), p.evalI(x.Y, env)
+		switch x.Op {
+		case token.ADD, token.SUB, token.MUL:
+			// machine arithmetic wraps: a mathematical result outside the type's range says nothing
+			out := p.combine(x.Op, l, r)
+			if x.Op == token.MUL && out.lo == nil && out.hi == nil {
+				break
+			}
+			if tr.lo != nil && (out.lo == nil || out.hi == nil || out.lo.Cmp(tr.lo) < 0 || out.hi.Cmp(tr.hi) > 0) {
+				// half-bounded results are kept only on the side that cannot have wrapped
+				if out.lo != nil && out.hi != nil {
+					return tr
+				}
+				return p.halfBounded(out, l, r, tr)
+			}
+			return out
+		}
 		switch x.Op {
 		case token.ADD:
 			out := ival{}
@@ -654,7 +702,7 @@ func (p *Prog) envStep(s ast.Stmt, cur ienv) ienv {
 		}
 		return res
 	case *ast.AssignStmt:
-		out := cur.clone()
+		out := p.forgetAssigned(cur, x) // also what calls on the right-hand side may modify through pointers
 		kill := func(k string) {
 			for e := range out {
 				if e == k || strings.HasPrefix(e, k+".") || strings.HasPrefix(e, k+"[") {
@@ -1093,4 +1141,10 @@ func (p *Prog) paramEnv(fd *ast.FuncDecl) ienv {
 		p.ivParamCache[fd] = env.clone()
 	}
 	return env
+}
+
+// halfBounded: l op r is only half-bounded mathematically (one operand unbounded on one side). Operands are
+// always bounded by their own types, so this arises only for untyped situations; keep the type range.
+func (p *Prog) halfBounded(out, l, r, tr ival) ival {
+	return tr
 }
